@@ -275,10 +275,36 @@ class BalancingLearner(BaseLearner):
             return [], []
 
         if not tell_pending:
-            with restore(*self.learners):
-                return self._ask_and_tell(n)
+            # Besides the children, also this learner's own caches and the
+            # position of the 'cycle' strategy must survive the tentative ask.
+            caches = (
+                dict(self._ask_cache),
+                dict(self._loss),
+                dict(self._pending_loss),
+            )
+            cycle_start = self._peek_cycle()
+            try:
+                with restore(*self.learners):
+                    return self._ask_and_tell(n)
+            finally:
+                self._ask_cache, self._loss, self._pending_loss = caches
+                self._set_cycle(cycle_start)
         else:
             return self._ask_and_tell(n)
+
+    def _set_cycle(self, start: int | None) -> None:
+        if start is not None:
+            self._cycle = itertools.cycle(range(len(self.learners)))
+            for _ in range(start):
+                next(self._cycle)
+
+    def _peek_cycle(self) -> int | None:
+        """The index that the 'cycle' strategy will use next."""
+        if self._strategy != "cycle":
+            return None
+        start = next(self._cycle)
+        self._set_cycle(start)
+        return start
 
     def tell(self, x: tuple[Int, Any], y: Any) -> None:
         index, x = x
